@@ -1,4 +1,6 @@
 pub mod from_proto;
 pub mod server;
 pub mod to_proto;
+#[cfg(feature = "verif")]
+pub mod verif;
 pub mod vfs;
